@@ -18,6 +18,7 @@ func main() {
 	solver := flag.String("solver", "z3", "z3|z3-new|cvc5")
 	only := flag.String("only", "", "only harnesses whose name contains this")
 	budget := flag.Float64("budget", 0, "per-harness wall-clock budget in seconds (0 = tier default)")
+	replay := flag.String("replay", "", "replay a recorded counterexample (replays/<...>.json) natively against the current tree")
 	flag.Parse()
 	if t := os.Getenv("VERIF_TIER"); t == "quick" || t == "thorough" {
 		if !flagSet("tier") {
@@ -54,6 +55,9 @@ func main() {
 	if err := e.Load(cfg.Pkgs); err != nil {
 		fmt.Printf("INCONCLUSIVE property=%s cannot load packages: %v\n", *prop, err)
 		os.Exit(3)
+	}
+	if *replay != "" {
+		os.Exit(runReplay(e, *prop, *replay))
 	}
 	os.Exit(runCheck(e, *prop, cfg, known, seed, *logDir))
 }
